@@ -605,6 +605,9 @@ def run(run, model):
     run.try_rule(r13_2, cx)
     run.try_rule(r13_3, cx)
     run.try_rule(r13_4, cx)
+    from rules import c14
+    run.rule("R13.6", "the link order does not depend on the order of the inputs (shared with C14: link_cores always uses the canonical topo_sort)")
+    run.try_rule(c14.canonical_link_order, model, "R13.6")
     run.assume("E1 resolves callees with Instance::try_resolve under TypingEnv::post_analysis on the real cargo build "
                "(dev profile, default features, lib+bin targets of all 8 workspace crates); iteration hidden behind a "
                "dyn Iterator or inside non-workspace generic code receiving a hash container by value is only seen for the "
